@@ -550,6 +550,24 @@ def lint_directory_bounded(ctx):
                              budget=f"{n} trees", witness_confirmed=True,
                              witness={"tree": tree, "patterns": raw, "recursive": False, "got": sorted(got), "expected": sorted(want_flat)},
                              note=f"non-recursive: tree {tree} patterns {raw}: reported {sorted(got)}, expected {sorted(want_flat)}")]
+            # the project root and the target spelled RELATIVE to the working directory (run from the parent directory):
+            # same files as with absolute spellings (repository patterns are anchored at the root, however it is spelled)
+            cwd_before = os.getcwd()
+            try:
+                os.chdir(str(root.parent))
+                rel_root = pathlib.Path(root.name)
+                clear_ignore_parser_cache()
+                vs = Orchestrator(project_root=rel_root, config={}).lint_directory(rel_root, recursive=True)
+                got = {os.path.relpath(os.path.realpath(v.file_path), os.path.realpath(str(root))) for v in vs if v.rule_id.startswith("magic-numbers")}
+            finally:
+                os.chdir(cwd_before)
+            cases += 1
+            if got != want:
+                return [dict(name=name, kind="bounded", verdict="refuted", carries=True, tool="real-tree lint runs", cases=cases,
+                             budget=f"{n} trees", witness_confirmed=True,
+                             witness={"tree": tree, "patterns": raw, "project_root": root.name, "cwd": "its parent", "got": sorted(got), "expected": sorted(want)},
+                             note=f"relative project root / relative target from the parent directory: reported {sorted(got)}, expected {sorted(want)}; "
+                                  f"tree {tree} patterns {raw} from {source}")]
             # the parallel entry point honours the recursion flag like the sequential one
             for rec in (True, False):
                 clear_ignore_parser_cache()
